@@ -199,13 +199,23 @@ def gen_entry(rng, maxn, jmax):
     """the public entry points with every combination of the optional rho / theta arguments"""
     r, c = rng.randint(2, maxn), rng.randint(2, maxn)
     m = asym_support(rng, r, c) if (r >= 3 and c >= 3 and rng.random() < 0.5) else rnd_mask(rng, r, c, values=rng.random() < 0.4)
-    via = rng.choice(['zernike', 'zernike', 'basis', 'basis', 'basis_vec', 'basis_scalar'])
-    n = 1 if via in ('zernike', 'basis_scalar') else rng.randint(1, 5)
+    via = rng.choice(['zernike', 'zernike', 'basis', 'basis', 'basis_vec', 'basis_vec', 'basis_scalar', 'basis_scalar_vec'])
+    n = 1 if (via in ('zernike', 'basis_scalar', 'basis_scalar_vec') or rng.random() < 0.3) else rng.randint(2, 5)
     modes = [rng.randint(1, jmax) if rng.random() < 0.85 else rng.randint(1, 10) for _ in range(n)]
     if rng.random() < 0.06:
         modes[rng.randrange(n)] = rng.choice([0, -1, -7])
     args = rng.choice(['none'] * 6 + ['theta', 'rho', 'both', 'both'])
     return {'op': 'entry', 'mask': m, 'modes': modes, 'normalize': rng.random() < 0.6, 'args': args, 'via': via}
+
+
+def gen_shift(rng, maxn):
+    """zernike_coordinates(mask, shift=(row, col)) with an explicit, exactly representable shift"""
+    r, c = rng.randint(2, maxn), rng.randint(2, maxn)
+    m = asym_support(rng, r, c) if (r >= 3 and c >= 3 and rng.random() < 0.5) else rnd_mask(rng, r, c, values=rng.random() < 0.4)
+    den = rng.choice([1, 2, 4, 8])
+    form = rng.choice(['tuple', 'list', 'array', 'int_array' if den == 1 else 'tuple'])
+    return {'op': 'coords_shift', 'mask': m, 'shift': [str(Fraction(rng.randint(-3 * den, 3 * den), den)),
+                                                         str(Fraction(rng.randint(-3 * den, 3 * den), den))], 'form': form}
 
 
 def gen_large(rng, k):
@@ -333,6 +343,8 @@ def generate(rng, tier):
         yield gen_coords(rng, 7 if quick else 9)
     for k in range(2 if quick else 8):
         yield gen_large(rng, k)
+    for _ in range(30 if quick else 300):
+        yield gen_shift(rng, 6 if quick else 8)
     for _ in range(70 if quick else 700):
         yield gen_entry(rng, 6 if quick else 8, 36 if quick else 66)
     # (5) call histories: one mask buffer refilled in place between zernike_basis / zernike_fit calls
@@ -379,6 +391,8 @@ def nontrivial(c):
         return True
     if c['op'] == 'entry':
         return c['args'] != 'none' or max(c['modes']) >= 4
+    if c['op'] == 'coords_shift':
+        return any(Fraction(v) != 0 for v in c['shift'])
     if c['op'] == 'history':
         return len({json_key(c['fills'][s_['fill']]) for s_ in c['steps']}) >= 2
     if c['op'] == 'seq':
@@ -413,9 +427,17 @@ def encode(c):
             for v in row:
                 out += C.enc_q(C.frac(v))
         return out
+    if c['op'] == 'coords_shift':
+        m = c['mask']
+        out = [8] + C.enc_q(Fraction(c['shift'][0])) + C.enc_q(Fraction(c['shift'][1])) + [len(m), len(m[0])]
+        for row in m:
+            for v in row:
+                out += C.enc_q(C.frac(v))
+        return out
     if c['op'] == 'entry':
         m = c['mask']
-        out = [7, {'none': 0, 'rho': 1, 'theta': 2, 'both': 3}[c['args']], 1 if c['normalize'] else 0, len(c['modes'])] + list(c['modes'])
+        out = [7, {'none': 0, 'rho': 1, 'theta': 2, 'both': 3}[c['args']], 1 if c['normalize'] else 0,
+               0 if c['via'] == 'zernike' else 1, 1 if c['via'].endswith('_vec') else 0, len(c['modes'])] + list(c['modes'])
         out += [len(m), len(m[0])]
         for row in m:
             for v in row:
@@ -470,14 +492,22 @@ def read_coords(rd, npts):
 
 
 def decode(c, ints):
+    if c['op'] == 'coords_shift':
+        rd = C.Reader(ints)
+        m = c['mask']
+        out = read_coords(rd, len(m) * len(m[0]))
+        assert rd.done()
+        return out
     if c['op'] == 'entry':
         if ints[0] == 1:
             return {'err': C.ERRNAMES[ints[1]]}
-        if ints[1] == 0:
-            return {'supplied': True}
         rd = C.Reader(ints)
         rd.z()
-        rd.z()
+        supplied = rd.z() == 0
+        shape = rd.lst(rd.z)
+        if supplied:
+            assert rd.done()
+            return {'supplied': True, 'shape': shape}
         m = c['mask']
         npts = len(m) * len(m[0])
 
@@ -486,7 +516,7 @@ def decode(c, ints):
             return {'norm2': n2, 'odd': odd, 'rmax2': rm2, 'vals': [rd.q() for _ in range(npts)]}
         out = rd.lst(one)
         assert rd.done()
-        return {'modes': out}
+        return {'modes': out, 'shape': shape}
     if c['op'] == 'history':
         rd = C.Reader(ints)
         rd.z()
@@ -574,6 +604,12 @@ def run_impl(c):
             return res
         if c['op'] == 'coords_large':
             return run_large(lentil, c)
+        if c['op'] == 'coords_shift':
+            mask = np.array(c['mask'])
+            sh = [float(Fraction(v)) for v in c['shift']]
+            arg = {'tuple': tuple(sh), 'list': list(sh), 'array': np.array(sh), 'int_array': np.array(sh).astype(int)}[c['form']]
+            rho, theta = lentil.zernike_coordinates(mask, shift=arg)
+            return {'rho': np.asarray(rho, dtype=float).tolist(), 'theta': np.asarray(theta, dtype=float).tolist()}
         if c['op'] == 'entry':
             mask = np.array(c['mask'])
             kw = {}
@@ -584,8 +620,8 @@ def run_impl(c):
             if c['via'] == 'zernike':
                 out = lentil.zernike(mask, c['modes'][0], normalize=c['normalize'], **kw)
             else:
-                modes = c['modes'][0] if c['via'] == 'basis_scalar' else list(c['modes'])
-                out = lentil.zernike_basis(mask, modes, vectorize=(c['via'] == 'basis_vec'), normalize=c['normalize'], **kw)
+                modes = c['modes'][0] if c['via'].startswith('basis_scalar') else list(c['modes'])
+                out = lentil.zernike_basis(mask, modes, vectorize=c['via'].endswith('_vec'), normalize=c['normalize'], **kw)
             out = np.asarray(out, dtype=float)
             return {'shape': list(out.shape), 'rows': out.reshape((len(c['modes']), -1)).tolist()}
         if c['op'] == 'history':
@@ -900,7 +936,7 @@ def compare_entry(c, impl, model):
     m = c['mask']
     r, cdim = len(m), len(m[0])
     nm = len(c['modes'])
-    want = {'zernike': [r, cdim], 'basis': [nm, r, cdim], 'basis_scalar': [1, r, cdim], 'basis_vec': [nm, r * cdim]}[c['via']]
+    want = model['shape']
     if impl['shape'] != want:
         return f'{c["via"]}: result shape {impl["shape"]}, model {want}'
     if model.get('supplied'):
@@ -922,6 +958,18 @@ def compare_entry(c, impl, model):
 
 
 def compare(c, impl, model):
+    if c['op'] == 'coords_shift':
+        if ('err' in impl) != ('err' in model):
+            return f'implementation {impl.get("err", "returned a value")}, model {model.get("err", "returned a value")}'
+        if 'err' in impl:
+            return None
+        if float(model['rmax2']) == 0:
+            return None       # the only masked sample is the origin: 0/0, not modelled
+        rho = np.asarray(impl['rho'], dtype=float).ravel()
+        for k, (a, b) in enumerate(zip(rho, model['rho2'])):
+            if not abs(a * a - float(b)) <= TOL * (1 + float(b)):
+                return f'shift={c["shift"]}: rho^2 at flat index {k}: {a * a!r} vs model {float(b)!r}'
+        return gram_mismatch(impl['theta'], model['dx'], model['dy'])
     if c['op'] == 'entry':
         return compare_entry(c, impl, model)
     if c['op'] == 'history':
@@ -1088,6 +1136,26 @@ def oracle(c, impl):
             if not v['mode_dev'] <= 1e-12 * (1 + float(np.max(np.abs(zj)))):
                 return f'zernike(mask, {c["j"]}) with the mask given as / called with {name} differs by {v["mode_dev"]!r}'
         return None
+    if c['op'] == 'coords_shift':
+        if 'err' in impl:
+            return f'zernike_coordinates(mask, shift={c["shift"]}) raised {impl["err"]}'
+        mb = np.asarray(c['mask']) != 0
+        r, cc_ = mb.shape
+        o_r, o_c = r // 2 + Fraction(c['shift'][0]), cc_ // 2 + Fraction(c['shift'][1])
+        d2 = np.array([[float((i - o_r) ** 2 + (j - o_c) ** 2) for j in range(cc_)] for i in range(r)])
+        dmax2 = d2[mb].max()
+        if dmax2 == 0:
+            return None
+        rho = np.asarray(impl['rho'], dtype=float)
+        e = np.sqrt(d2 / dmax2)
+        if not np.all(np.abs(rho - e) <= TOL * (1 + e)):
+            k = np.unravel_index(np.argmax(np.abs(rho - e)), rho.shape)
+            return (f'shift={c["shift"]} ({c["form"]}): rho[{k[0]},{k[1]}] = {rho[k]!r}; with the origin at shape//2 + shift = '
+                    f'({float(o_r)}, {float(o_c)}) and rho = 1 at the farthest masked sample it is {e[k]!r}')
+        dx = [Fraction(j) - o_c for i in range(r) for j in range(cc_)]
+        dy = [Fraction(i) - o_r for i in range(r) for j in range(cc_)]
+        msg = gram_mismatch(impl['theta'], dx, dy)
+        return ('theta is not measured about shape//2 + shift: ' + msg) if msg else None
     if c['op'] == 'entry':
         if 'err' in impl or c['args'] in ('rho', 'both') or min(c['modes']) < 1:
             return None      # refusals and caller-supplied coordinates: decided by the model comparison / the mode cases
